@@ -37,6 +37,8 @@ def run(ctx) -> None:
         ctx.reuse("C16.history-twins", c11.condense_count, dev)
         ctx.reuse("C16.history-twins", c11.lvh_count, dev)
         ctx.reuse("C16.state-twins", c01.pair_transfer, dev)
+    # distribute (one shared implementation) books amounts that do not depend on the device's well numbering
+    ctx.reuse("C16.state-twins", c01.pair_distribute, "C01.pair-distribute")
 
 
 def override_set(ctx) -> None:
